@@ -1002,6 +1002,14 @@ static void _purge_hierarchy_changes(TickitWindow *win)
     else
       changep = &req->next;
   }
+
+  /* Likewise the root must not go on sending drag events to a window that has
+   * left the tree; its pointer to the drag source is not a counted reference */
+  for(TickitWindow *w = root->drag_source_window; w; w = w->parent)
+    if(w == win) {
+      root->drag_source_window = NULL;
+      break;
+    }
 }
 
 static bool _scrollrectset(TickitWindow *win, TickitRectSet *visible, int downward, int rightward, TickitPen *pen)
@@ -1442,6 +1450,12 @@ static TickitWindow *_handle_mouse(TickitWindow *win, TickitMouseEventInfo *info
   ret = NULL;
   /* fallthrough */
 done:
+  /* A handler may have closed this window or dropped the last other reference
+   * to it (it is then destroyed by the unref below). Neither it nor a window
+   * below it can be reported as having taken the event: the caller may keep
+   * the pointer as the drag source */
+  if(win->is_closed || win->refcount == 1)
+    ret = NULL;
   tickit_window_unref(win);
 
   return ret;
